@@ -528,12 +528,25 @@ impl verif::File for Handle {
 
 // ------------------------------------------------------------------------------------------------ clock, ids
 
+/// The scripted clock. The worker reads it ONCE per `on_batch` (period, millisecond counter and the keep-or-roll
+/// decision all come from that one reading); every further reading before the script sets the next instant is one
+/// millisecond later, so code that reads the clock a second time gets a different answer.
 #[derive(Clone)]
-struct ScriptClock(Arc<Mutex<emit::Timestamp>>);
+struct ScriptClock(Arc<Mutex<emit::Timestamp>>, Arc<std::sync::atomic::AtomicU32>);
+
+impl ScriptClock {
+    fn set(&self, ts: emit::Timestamp) {
+        *self.0.lock().unwrap() = ts;
+        self.1.store(0, std::sync::atomic::Ordering::SeqCst);
+    }
+}
 
 impl emit::Clock for ScriptClock {
     fn now(&self) -> Option<emit::Timestamp> {
-        Some(*self.0.lock().unwrap())
+        let base = *self.0.lock().unwrap();
+        let k = self.1.fetch_add(1, std::sync::atomic::Ordering::SeqCst);
+        let later = emit::Timestamp::from_unix(base.to_unix() + std::time::Duration::from_millis(k as u64));
+        Some(later.unwrap_or(base))
     }
 }
 
@@ -676,7 +689,7 @@ pub fn run_case(case: &Case) -> Option<Outcome> {
         inner.plan.entry(*i).or_insert_with(|| f.clone());
     }
     let fs = Fs(Arc::new(Mutex::new(inner)));
-    let clock = ScriptClock(Arc::new(Mutex::new(emit::Timestamp::MIN)));
+    let clock = ScriptClock(Arc::new(Mutex::new(emit::Timestamp::MIN)), Arc::new(std::sync::atomic::AtomicU32::new(0)));
     let ids = ScriptRng(Arc::new(Mutex::new(0)));
     let sep = intern_sep(&cfg.sep);
     let new_worker = || {
@@ -784,7 +797,7 @@ pub fn run_case(case: &Case) -> Option<Outcome> {
                 match batch {
                     None => "none".to_string(),
                     Some(batch) => {
-                        *clock.0.lock().unwrap() = now.timestamp()?;
+                        clock.set(now.timestamp()?);
                         *ids.0.lock().unwrap() = *id;
                         let events = batch.remaining_bufs();
                         let base = batch.index();
